@@ -497,7 +497,12 @@ fn q_strategy(base: u8) -> BoxedStrategy<Q> {
         6 => (ver.clone(), prop::sample::select(vec![1u32, 2, 1000, 0x7FFF_FFFF])).prop_map(|(version, off)| Q::SerialUnknown { version, off }),
         6 => ver.clone().prop_map(|version| Q::SerialForeign { version }),
         25 => ver.clone().prop_map(|version| Q::Reset { version }),
-        4 => (ver.clone(), 1u8..=2, prop::sample::select(vec![0u32, 7, 8, 9, 11, 12, 13, 16, 24, u32::MAX]), extra.clone())
+        4 => (ver.clone(), 1u8..=2, prop_oneof![
+            3 => prop::sample::select(vec![0u32, 7, 8, 9, 11, 12, 13, 16, 24, u32::MAX]),
+            // right in the low 8 / 16 / 24 bits only
+            2 => prop::sample::select(vec![0x108u32, 0x10c, 0x1_0008, 0x1_000c, 0x2_0008, 0x2_000c, 0x100_0008, 0x100_000c, 0x8000_0008, 0x8000_000c, 0xFFFF_0008, 0xFFFF_000c]),
+            1 => any::<u32>(),
+        ], extra.clone())
             .prop_map(|(version, typ, len, extra)| Q::WrongLen { version, typ, len, extra }),
         4 => (ver.clone(), prop::sample::select(vec![0u8, 3, 4, 5, 6, 7, 8, 9, 11, 12, 255]), prop::sample::select(vec![8u32, 12, 20, 0]), extra)
             .prop_map(|(version, typ, len, extra)| Q::Unsupported { version, typ, len, extra }),
